@@ -106,8 +106,8 @@ CLAIMS['C04'] = dict(engine='pyframe degree typing (E2) + symx-lf (E4b) + rtc (E
     technique='reference-choice invariances (joint vacancy / solute prefactor scaling, energy-temperature co-scaling) and rate covariance as degree contracts checked statement by statement on the extracted AST of preene2betafree, _symmetricandescaperates, Lij, the Green-function calculator and the Interstitial rate functions (every sum, comparison, branch condition and cutoff relates equal degrees: all inputs, all crystals); relational contracts: for the interstitial calculator the real source is executed on symbolic data and shift / prefactor / rate-scaling invariances are decided as exact rational-function identities per enumerated network; relational run-time contracts (energy shifts, joint prefactor scaling, energy/temperature co-scaling, rate scaling; reused and fresh calculators) as bounded stand-in for both calculators',
     text='Bounded: the four invariances and rate covariance hold to 1e-7 on every catalogue calculator with seeded data, on a reused calculator and on a fresh one.',
     note='Clause (d) (intra-cell displacements) not covered.')
-CLAIMS['C06'] = dict(engine='rtc (E3)', category='exploration',
-    technique='run-time postcondition of Lij under the tracer precondition; bounded stand-in',
+CLAIMS['C06'] = dict(engine='pyvc (E1) + pyframe degree typing (E2) + rtc (E3)', category='exploration',
+    technique='maketracerpreene against its specification (AST->VC->z3, loop invariants, any number of classes); degree contract of Lij (the identities are about rate ratios); run-time postcondition of Lij under the tracer precondition as bounded stand-in',
     text='Bounded: Lsv = -L0vv, L1vv = 0, 0 <= Lss <= L0vv for seeded non-uniform vacancy data on the catalogue calculators (1e-9 algebraic / 1e-4 with origin states).',
     note='Nthermo 1 (quick).')
 CLAIMS['C08'] = dict(engine='pyframe degree typing (E2) + rtc (E3)', category='exploration',
